@@ -265,3 +265,72 @@ def connect_step_canary(H, _):
     H.check("canary_assumptions_are_contradictory", SymBool(z3.BoolVal(False)) if False else SymBool(z3.Int("zero!") != z3.Int("zero!")))
     H.call(p.connect, a, b)
     H.check("canary_connect_never_changes_lengths", SymBool(heap.len["in_links"] == old.len["in_links"]))
+
+
+def _list_cases(tier):
+    out = []
+    for shape in ("1x2", "2x1", "2x2"):
+        for flags in ("connect_all", "disconnect_all", "mixed"):
+            out.append((f"{shape},{flags}", (shape, flags)))
+    return out if tier == "thorough" else [c for c in out if c[0] in ("1x2,mixed", "2x1,connect_all", "1x2,disconnect_all")]
+
+
+@contract(
+    "connect_lists_on_heap", ["C07"], cases=_list_cases, replayable=False, timeout_ms=60000, max_paths=600,
+    targets=["rv.project:Project.connect"],
+)
+def connect_lists_on_heap(H, case):
+    """List operands on the array-theory heap: connect(F, T) with |F|, |T| in {1, 2}, distinct modules at
+    ARBITRARY positions of a project of ANY size with ANY LinksOK tables, each element optionally
+    negated: afterwards LinksOK holds, every requested pair is connected (or gone if either end was
+    negated) - also when some pairs of the same request were already (dis)connected - and the incoming
+    tables of modules outside T / outgoing tables of modules outside F are untouched."""
+    from rv.modules.module import DisconnectingModule
+
+    shape, flags = case
+    nf, nt = int(shape[0]), int(shape[2])
+    c = H.pctx
+    heap = LinkHeap()
+    p = Project()
+    mods, idx = [], []
+    for i in range(nf + nt):
+        m = Amplifier()
+        k = H.int(f"i{i}", 0, None)
+        c.add(k.z < heap.N)
+        for j in idx:
+            c.add(k.z != j.z)
+        m.index, m.parent = k, p
+        for f in FIELDS:
+            setattr(m, f, heap.view(f, k))
+        mods.append(m)
+        idx.append(k)
+    p.__dict__["module_index"] = lambda m: m.index
+    for cl in heap.clauses().values():
+        c.add(cl)
+    old = heap.snapshot()
+    neg = {"connect_all": [False] * (nf + nt), "disconnect_all": [True] * nf + [False] * nt,
+           "mixed": [False, True, True, False][: nf] + [True, False][: nt]}[flags]
+    F_ = [DisconnectingModule(m) if neg[i] else m for i, m in enumerate(mods[:nf])]
+    T_ = [DisconnectingModule(m) if neg[nf + i] else m for i, m in enumerate(mods[nf:])]
+    exc, _ = H.raises(p.connect, F_ if nf > 1 else F_[0], T_ if nt > 1 else T_[0])
+    H.check("does_not_raise", exc is None)
+    for name, cl in heap.clauses().items():
+        H.check("LinksOK." + name, SymBool(cl))
+    k = z3.Int("k")
+    IN1, nIN1 = heap.tab["in_links"], heap.len["in_links"]
+    for fi in range(nf):
+        for ti in range(nt):
+            s, d = idx[fi].z, idx[nf + ti].z
+            conn = z3.Exists([k], z3.And(0 <= k, k < nIN1[d], IN1[d][k] == s))
+            want_gone = neg[fi] or neg[nf + ti]
+            H.check(f"pair[{fi}][{ti}].{'gone' if want_gone else 'connected'}", SymBool(z3.Not(conn) if want_gone else conn))
+    m_ = z3.Int("m")
+    tset = [idx[nf + ti].z for ti in range(nt)]
+    fset = [idx[fi].z for fi in range(nf)]
+    H.check("frame.incoming_tables_outside_T_untouched", SymBool(z3.ForAll([m_], z3.Implies(
+        z3.And(*[m_ != t for t in tset]), z3.And(heap.tab["in_links"][m_] == old.tab["in_links"][m_], heap.tab["in_link_slots"][m_] == old.tab["in_link_slots"][m_],
+                                                 heap.len["in_links"][m_] == old.len["in_links"][m_])))))
+    H.check("frame.outgoing_tables_outside_F_untouched", SymBool(z3.ForAll([m_], z3.Implies(
+        z3.And(*[m_ != f for f in fset]), z3.And(heap.tab["out_links"][m_] == old.tab["out_links"][m_], heap.tab["out_link_slots"][m_] == old.tab["out_link_slots"][m_],
+                                                 heap.len["out_links"][m_] == old.len["out_links"][m_])))))
+    H.cover("reached")
